@@ -81,7 +81,11 @@ void WireMonitor::on_send(const Datagram &dg)
 		if (m.q.size() == 1) {
 			std::string n = m.q[0].name.dotted();
 			if (n.size() >= 200) n_long_q++;
-			if ((int)n.size() > client_maxlen) v->fail("C08", "C08:sim-limit", fmt("client emitted a %zu character name with -M %d: %.80s", n.size(), client_maxlen, n.c_str()));
+			// C08 lists the builders it speaks about: data chunks, fragment-size probes, pings, version / login / set-fragment-size
+			// messages.  The fixed codec test patterns (z..., y...) and the short s/o/i requests are not among them.
+			char k0 = n.empty() ? 0 : (char)tolower((unsigned char)n[0]);
+			bool listed = k0 && strchr("rpvln0123456789abcdef", k0);
+			if (listed && (int)n.size() > client_maxlen) v->fail("C08", "C08:sim-limit", fmt("client emitted a %zu character name with -M %d: %.80s", n.size(), client_maxlen, n.c_str()));
 			if (ref::match_datalen(n, domain) < 0) v->fail("C08", "C08:sim-domain", "client query name not under the tunnel domain: " + n.substr(0, 100));
 		}
 		return;
